@@ -9,6 +9,8 @@ use std::task::{Context, Poll};
 
 struct Shared<T> {
     log: Vec<T>,
+    /// == log.len(), kept as a plain field (see mpsc.rs on why)
+    count: usize,
     receivers: usize,
     senders: usize,
 }
@@ -25,6 +27,7 @@ pub struct Receiver<T> {
 pub fn channel<T: Clone>(_cap: usize) -> (Sender<T>, Receiver<T>) {
     let shared = Rc::new(RefCell::new(Shared {
         log: Vec::new(),
+        count: 0,
         receivers: 1,
         senders: 1,
     }));
@@ -72,6 +75,7 @@ impl<T: Clone> Sender<T> {
             return Err(error::SendError(value));
         }
         s.log.push(value);
+        s.count += 1;
         Ok(s.receivers)
     }
 
@@ -80,7 +84,7 @@ impl<T: Clone> Sender<T> {
         s.receivers += 1;
         Receiver {
             shared: self.shared.clone(),
-            next: s.log.len(),
+            next: s.count,
         }
     }
 
@@ -112,7 +116,7 @@ impl<'a, T: Clone> Future for Recv<'a, T> {
         let next = self.rx.next;
         let got = {
             let s = self.rx.shared.borrow();
-            if next < s.log.len() {
+            if next < s.count {
                 Some(Ok(s.log[next].clone()))
             } else if s.senders == 0 {
                 Some(Err(error::RecvError::Closed))
